@@ -9,7 +9,7 @@ CONSTANTS
   Big = 6
   MaxPieces = 4
   MaxUnits = 1
-  ReadSizes = {1, 3, 1000}
+  ReadSizes = {0, 1, 3, 1000}
   ClientMax = 2
   WithMembers = FALSE
   WithCorrupt = FALSE
@@ -24,12 +24,15 @@ CONSTANTS
   KeepPending = TRUE
   CheckEachChunk = TRUE
   ErrChecked = TRUE
+  PendingCountsAvail = TRUE
+  LineKeepsLimits = TRUE
 INVARIANT Resident
 INVARIANT OneCallBudget
 INVARIANT NoInputLost
 INVARIANT ErrorNotData
 INVARIANT NoDeadlock
 INVARIANT NoSpuriousFailure
+INVARIANT EofMeansAllDelivered
 INVARIANT HeldBackImpliesPaused
 INVARIANT MaxSize
 INVARIANT NeverReturnsMore
